@@ -378,14 +378,18 @@ Definition udiv (d x : N) : N := x / d.
 Lemma udiv_spec : forall d x, d <> 0 -> x < 2 ^ 64 -> udiv d x = x / d.
 Proof. reflexivity. Qed.
 
-(* transform_range_before_linear_transformation: for lo <= hi,
-   min + gcd*q in [lo, hi]  <->  q in [ceil((lo -sat min)/gcd), (hi -sat min)/gcd]  -- whenever hi >= min;
-   when hi < min the transformed range may contain 0 although no value qualifies (see below). *)
+(* transform_range_before_linear_transformation.  `guard` = the source has the test
+   `|| *range.end() < stats.min_value` (pinned: COLUMNAR_RANGE_BELOW_MIN_GUARD; the fix of F81).
+   For lo <= hi:  min + gcd*q in [lo, hi]  <->  q in [ceil((lo -sat min)/gcd), (hi -sat min)/gcd]  whenever hi >= min;
+   when hi < min the saturating subtractions give 0..=0 although no value qualifies -- hence the guard. *)
 Definition sat_sub (a b : N) : N := a - b.     (* N subtraction saturates at 0 *)
 Definition div_ceil (n q : N) : N := let d := n / q in let r := n mod q in if 0 <? r then d + 1 else d.
-Definition transform_range (s : column_stats) (lo hi : N) : option (N * N) :=
-  if hi <? lo then None
+Definition transform_range_g (guard : bool) (s : column_stats) (lo hi : N) : option (N * N) :=
+  if (hi <? lo) || (guard && (hi <? st_min s)) then None
   else Some (div_ceil (sat_sub lo (st_min s)) (st_gcd s), sat_sub hi (st_min s) / st_gcd s).
+
+Definition range_guard : bool := COLUMNAR_RANGE_BELOW_MIN_GUARD =? 1.
+Definition transform_range : column_stats -> N -> N -> option (N * N) := transform_range_g range_guard.
 
 Lemma div_ceil_spec n g q : g <> 0 -> (div_ceil n g <= q <-> n <= g * q).
 Proof.
@@ -393,29 +397,34 @@ Proof.
   destruct (0 <? n mod g) eqn:E; [apply N.ltb_lt in E|apply N.ltb_ge in E]; split; intros H; nia.
 Qed.
 
-Theorem transform_range_exact s lo hi q : st_gcd s <> 0 -> st_min s <= hi ->
-  match transform_range s lo hi with
+(* exact whenever the guard is present or the upper end is not below the column minimum *)
+Theorem transform_range_exact guard s lo hi q : st_gcd s <> 0 -> (guard = true \/ st_min s <= hi) ->
+  match transform_range_g guard s lo hi with
   | None => ~ (lo <= st_min s + st_gcd s * q <= hi)
   | Some (a, b) => (a <= q <= b) <-> (lo <= st_min s + st_gcd s * q <= hi)
   end.
 Proof.
-  intros Hg Hhi. unfold transform_range. destruct (hi <? lo) eqn:E; [apply N.ltb_lt in E; lia|].
-  apply N.ltb_ge in E. unfold sat_sub. rewrite div_ceil_spec by exact Hg.
-  assert (Hb : q <= (hi - st_min s) / st_gcd s <-> st_gcd s * q <= hi - st_min s).
-  { split; intros H.
-    - pose proof (N.mul_div_le (hi - st_min s) (st_gcd s) Hg). nia.
-    - apply N.div_le_lower_bound; [exact Hg|exact H]. }
-  rewrite Hb. lia.
+  intros Hg Hcls. unfold transform_range_g. destruct (hi <? lo) eqn:E; [apply N.ltb_lt in E; cbn [orb]; lia|].
+  apply N.ltb_ge in E. cbn [orb].
+  destruct (guard && (hi <? st_min s)) eqn:EG.
+  - apply andb_true_iff in EG as [_ EG]. apply N.ltb_lt in EG. lia.
+  - assert (Hhi : st_min s <= hi).
+    { destruct Hcls as [->|H]; [|exact H]. cbn [andb] in EG. apply N.ltb_ge in EG. exact EG. }
+    unfold sat_sub. rewrite div_ceil_spec by exact Hg.
+    assert (Hb : q <= (hi - st_min s) / st_gcd s <-> st_gcd s * q <= hi - st_min s).
+    { split; intros H.
+      - pose proof (N.mul_div_le (hi - st_min s) (st_gcd s) Hg). nia.
+      - apply N.div_le_lower_bound; [exact Hg|exact H]. }
+    rewrite Hb. lia.
 Qed.
-
 
 (* ------------------------------------------------------------------------------------------ *)
 (* BitpackedReader::get_row_ids_for_value_range, at the level of its result: the rows of [r0, r1)
    whose bit-packed quotient lies in the transformed range (BitUnpacker::get_ids_for_value_range; its
    batch decoding through bitpacking::BitPacker1x is external and not modelled). *)
-Definition bitpacked_range_rows (col : (N * N * N * N) * bytes) (lo hi : N) (r0 r1 : nat) : list nat :=
+Definition bitpacked_range_rows_g (guard : bool) (col : (N * N * N * N) * bytes) (lo hi : N) (r0 r1 : nat) : list nat :=
   let s := stats_unwire (fst col) in
-  match transform_range s lo hi with
+  match transform_range_g guard s lo hi with
   | None => []
   | Some (a, b) =>
     filter (fun i => match unpacker_get (bp_num_bits s) (N.of_nat i) (snd col) with
@@ -423,6 +432,9 @@ Definition bitpacked_range_rows (col : (N * N * N * N) * bytes) (lo hi : N) (r0 
                      | None => false
                      end) (seq r0 (r1 - r0))
   end.
+(* the code as it is in /repo (guard as pinned) *)
+Definition bitpacked_range_rows : (N * N * N * N) * bytes -> N -> N -> nat -> nat -> list nat :=
+  bitpacked_range_rows_g range_guard.
 
 (* the specification: rows of [r0, r1) whose value lies in [lo, hi] *)
 Definition rows_in_range (vals : list N) (lo hi : N) (r0 r1 : nat) : list nat :=
@@ -433,35 +445,35 @@ Proof.
   induction l as [|x l IH]; intros H; [reflexivity|]. cbn [filter].
   rewrite (H x (or_introl eq_refl)), IH; [reflexivity|]. intros i Hi. apply H. right. exact Hi.
 Qed.
+Lemma filter_false_nil {A} (l : list A) : filter (fun _ => false) l = [].
+Proof. induction l; [reflexivity|assumption]. Qed.
 
 Section RangeLookup.
   Variable fdiv : N -> N -> N.
   Hypothesis fdiv_spec : forall d x, d <> 0 -> x < 2 ^ 64 -> fdiv d x = x / d.
 
-  (* exact unless the (non-empty) range lies entirely below the column minimum *)
-  Theorem bitpacked_range_exact vals lo hi r0 r1 : all_u64 vals -> (r1 <= length vals)%nat ->
-    (hi < lo \/ st_min (stats_of fdiv vals) <= hi) ->
-    bitpacked_range_rows (bitpacked_serialize fdiv vals) lo hi r0 r1 = rows_in_range vals lo hi r0 r1.
+  (* exact for every range when the guard is present; without it, unless the (non-empty) range lies
+     entirely below the column minimum *)
+  Theorem bitpacked_range_exact guard vals lo hi r0 r1 : all_u64 vals -> (r1 <= length vals)%nat ->
+    (guard = true \/ hi < lo \/ st_min (stats_of fdiv vals) <= hi) ->
+    bitpacked_range_rows_g guard (bitpacked_serialize fdiv vals) lo hi r0 r1 = rows_in_range vals lo hi r0 r1.
   Proof.
     intros Hu Hr1 Hcls. pose proof (stats_of_ok fdiv fdiv_spec vals Hu) as Hok.
-    unfold bitpacked_range_rows, rows_in_range.
+    unfold bitpacked_range_rows_g, rows_in_range.
     replace (fst (bitpacked_serialize fdiv vals)) with (stats_wire (stats_of fdiv vals)) by reflexivity.
     rewrite (stats_wire_roundtrip fdiv fdiv_spec _ _ Hok). set (s := stats_of fdiv vals) in *.
     assert (Hg : st_gcd s <> 0) by (destruct Hok; assumption).
-    destruct (N.lt_ge_cases hi lo) as [Hempty|Hne].
-    - unfold transform_range. replace (hi <? lo) with true by (symmetry; apply N.ltb_lt; exact Hempty).
-      symmetry. rewrite <- (filter_ext_in_seq (fun _ => false)).
-      + induction (seq r0 (r1 - r0)); [reflexivity|assumption].
-      + intros i _. symmetry. apply andb_false_iff.
-        destruct (N.le_gt_cases lo (nth i vals 0)); [right; apply N.leb_gt; lia|left; apply N.leb_gt; lia].
-    - destruct Hcls as [Hc|Hc]; [lia|].
-      destruct (transform_range s lo hi) as [[a b]|] eqn:ET.
-      2:{ unfold transform_range in ET. destruct (hi <? lo) eqn:E; [apply N.ltb_lt in E; lia|discriminate]. }
+    assert (Hcls' : guard = true \/ st_min s <= hi \/ hi < lo) by tauto.
+    destruct (transform_range_g guard s lo hi) as [[a b]|] eqn:ET.
+    - (* a transformed range: hi >= lo, and (guard or not) hi >= min is known or the class hypothesis applies *)
+      assert (Hc : guard = true \/ st_min s <= hi).
+      { unfold transform_range_g in ET. destruct (hi <? lo) eqn:E; [discriminate|]. apply N.ltb_ge in E.
+        destruct Hcls' as [H|[H|H]]; [left; exact H|right; exact H|lia]. }
       apply filter_ext_in_seq. intros i Hi. apply in_seq in Hi.
       assert (Hil : (i < length vals)%nat) by lia.
       destruct (bitpacked_quotient fdiv fdiv_spec vals i Hu Hil) as [Hq Hv]. fold s in Hq, Hv.
       rewrite Hq.
-      pose proof (transform_range_exact s lo hi ((nth i vals 0 - st_min s) / st_gcd s) Hg Hc) as Hex.
+      pose proof (transform_range_exact guard s lo hi ((nth i vals 0 - st_min s) / st_gcd s) Hg Hc) as Hex.
       rewrite ET, Hv in Hex.
       destruct ((a <=? _) && (_ <=? b)) eqn:E1; destruct ((lo <=? nth i vals 0) && (nth i vals 0 <=? hi)) eqn:E2; try reflexivity.
       + apply andb_true_iff in E1 as [E1a E1b]. apply N.leb_le in E1a, E1b.
@@ -470,14 +482,31 @@ Section RangeLookup.
       + apply andb_true_iff in E2 as [E2a E2b]. apply N.leb_le in E2a, E2b.
         apply andb_false_iff in E1. destruct Hex as [_ Hex]. specialize (Hex (conj E2a E2b)).
         destruct E1 as [E1|E1]; apply N.leb_gt in E1; lia.
+    - (* no transformed range: the range is empty, or (guard) it lies below the minimum: nothing matches *)
+      symmetry. rewrite <- (filter_ext_in_seq (fun _ => false)); [apply filter_false_nil|].
+      intros i Hi. apply in_seq in Hi. assert (Hil : (i < length vals)%nat) by lia.
+      symmetry. apply andb_false_iff.
+      unfold transform_range_g in ET.
+      destruct (hi <? lo) eqn:E.
+      + apply N.ltb_lt in E. destruct (N.le_gt_cases lo (nth i vals 0)); [right; apply N.leb_gt; lia|left; apply N.leb_gt; lia].
+      + cbn [orb] in ET. destruct (guard && (hi <? st_min s)) eqn:EG; [|discriminate].
+        apply andb_true_iff in EG as [_ EG]. apply N.ltb_lt in EG.
+        destruct Hok as [_ _ Hb _ _ _ _].
+        pose proof (proj1 (Forall_forall _ _) Hb _ (nth_In vals 0 Hil)) as Hvb. cbn in Hvb.
+        right. apply N.leb_gt. lia.
   Qed.
 End RangeLookup.
 
-(* F81: a non-empty range lying entirely below the column minimum *)
+(* the guard is in the source: re-checked on the regenerated constant at every run *)
+Lemma range_guard_present : range_guard = true.
+Proof. vm_compute. reflexivity. Qed.
+
+(* F81 (fixed in /repo): the class of inputs on which the code WITHOUT the guard is wrong:
+   a non-empty range lying entirely below the column minimum *)
 Definition f81_class (lo hi col_min : N) : bool := (lo <=? hi) && (hi <? col_min).
 
-(* ... and there the reader answers with the rows that hold the minimum *)
+(* ... there the old reader answered with the rows that hold the minimum (regression witness) *)
 Lemma bitpacked_range_below_min_refuted :
   exists vals lo hi, f81_class lo hi (st_min (stats_of udiv vals)) = true /\
-    bitpacked_range_rows (bitpacked_serialize udiv vals) lo hi 0 (length vals) <> rows_in_range vals lo hi 0 (length vals).
+    bitpacked_range_rows_g false (bitpacked_serialize udiv vals) lo hi 0 (length vals) <> rows_in_range vals lo hi 0 (length vals).
 Proof. exists [10; 20; 30], 3, 5. vm_compute. split; [reflexivity|discriminate]. Qed.
